@@ -18,6 +18,7 @@ mod fam_hexcol;
 mod fam_edit;
 mod fam_chg;
 mod fam_robust;
+mod fam_txn;
 mod fam_marks;
 mod fam_patch;
 mod fam_recon;
@@ -55,6 +56,7 @@ fn main() {
         "edit" => fam_edit::run(&mut rng, &tier, out),
         "chg" => fam_chg::run(&mut rng, &tier, out),
         "robust" => fam_robust::run(&mut rng, &tier, out),
+        "txn" => fam_txn::run(&mut rng, &tier, out),
         "marks" => fam_marks::run(&mut rng, &tier, out),
         "patch" => fam_patch::run(&mut rng, &tier, out),
         "recon" => fam_recon::run(&mut rng, &tier, out),
